@@ -169,8 +169,8 @@ func (s storedSpec) reply(atNs int64, body string) Reply {
 // aim elapsed times at boundaries; the checks never trust it).
 func (s storedSpec) aimLifetime() int64 {
 	if v, err := strconv.ParseInt(s.maxAge, 10, 64); err == nil && s.maxAge != "" {
-		if v > 1<<40 {
-			return 1 << 40
+		if v > 100_000_000 {
+			return 100_000_000
 		}
 		return max(v, 0)
 	}
@@ -261,7 +261,7 @@ func (g *G) genGrid(id string) *History {
 	nFollow := 1 + g.r.Intn(2)
 	for i := 0; i < nFollow; i++ {
 		var win int64
-		if v, err := strconv.ParseInt(pick(g, st.swr, st.sie, "0"), 10, 64); err == nil && v < 1<<40 {
+		if v, err := strconv.ParseInt(pick(g, st.swr, st.sie, "0"), 10, 64); err == nil && v < 100_000_000 {
 			win = v
 		}
 		base := pick(g, int64(0), 1, L-1, L, L+1, L+win-1, L+win, L+win+1, 2*L+5, L/2, 3*3600, 400*24*3600)
@@ -269,7 +269,9 @@ func (g *G) genGrid(id string) *History {
 			base = 0
 		}
 		at := base*sec + st.delayNs
-		if g.chance(0.25) {
+		// sub-second offsets only for small ages: beyond ~190 days Go's float64
+		// Duration.Seconds() may round x.999999999 s up, which the model (floor) does not follow
+		if g.chance(0.25) && base < 1_000_000 {
 			at += pick(g, int64(1), -1, 2)
 		}
 		// keep away from background completion instants (x.5 s) and monotone
